@@ -275,7 +275,8 @@ def check_literals(ck, exe, model, tmp, lits, validate_filter_upto):
         rfs = h["rfs"]
         exp_rfs = code[2:] if code.startswith("V:") else ("EXC" if code == "THROW" else "SIGFPE")
         got_rfs = "EXC" if rfs.startswith("EXC") else rfs
-        if got_rfs != exp_rfs:
+        canon = "%d/%d" % (want.numerator, want.denominator)         # the intended ratFromString: exact and canonical
+        if got_rfs != exp_rfs and got_rfs != canon:
             ck.violation("model-mismatch:ratFromString:" + cls,
                          "ratFromString(%r): implementation %s, model of the code %s" % (lit, rfs, code),
                          {"literal": lit, "implementation": rfs, "model": code, "correspondence": "LiteralModel.rat_code"},
@@ -312,6 +313,8 @@ def check_literals(ck, exe, model, tmp, lits, validate_filter_upto):
             # (a zero value is re-normalised to 0/1 by mpq_mul's zero short-cut in val *= pre_sign and is not stored as a
             # matrix entry at all: compare stored pairs for non-zero values only)
             if want == 0:
+                continue
+            if all(v == canon for v in val):
                 continue
             if where == "lp" and m["lpf"].startswith("V:") and any(v != m["lpf"][2:] for v in val):
                 ck.violation("model-mismatch:lp-reader:" + cls, "LP reader stores %s for %r, model of the code %s" % (val, lit, m["lpf"]),
@@ -577,7 +580,7 @@ def check_roundtrips(ck, exe, model, tmp, cases):
         ck.evaluated(("rt", hb.get("ORIG", ""), c["fmt"], c["mode"], c["names"], c["wzo"], c["unscale"]))
         orig, src = given[cid]
         replay = {"case": case_text(str(cid), c, lp, c["mode"]), "config": {k: c[k] for k in ("fmt", "mode", "names", "wzo", "unscale", "scale", "family")},
-                  "file": unhx(hb.get("FILE", ""))[:4000]}
+                  "lp": lp_to_json(lp), "file": unhx(hb.get("FILE", ""))[:4000]}
         # the API stored what was given
         want_in = {"obj": [x["obj"] for x in lp["cols"]], "lo": [x["lo"] for x in lp["cols"]], "up": [x["up"] for x in lp["cols"]],
                    "lhs": [r["lhs"] for r in lp["rows"]], "rhs": [r["rhs"] for r in lp["rows"]]}
@@ -599,7 +602,7 @@ def check_roundtrips(ck, exe, model, tmp, cases):
                 feat.append("int-inf-upper")        # real writeMPS: "UP" record of 1e100 cut at 80 characters
             if any(src["lo"][j] == "-inf" and src["up"][j] != "inf" for j in range(len(lp["cols"]))):
                 feat.append("mi-bound")             # readMPS: "MI" is taken for an integer bound (second letter 'I')
-        explains = {"free-row": {"write"}, "long-names": {"read", "columns", "rownames"}, "name8": {"read"},
+        explains = {"free-row": {"write"}, "long-names": {"read", "columns", "rownames"}, "name8": {"read", "columns"},
                     "int-inf-upper": {"up"}, "mi-bound": {"int"}}
 
         def sig(kind, fields):
@@ -713,7 +716,8 @@ def check_duals(ck, exe, tmp, cases):
         hb = HB.get(str(cid))
         if hb is None:
             continue
-        replay = {"case": case_text(str(cid), c, lp, "real"), "file": unhx(hb.get("FILE", ""))[:4000]}
+        replay = {"case": case_text(str(cid), c, lp, "real"), "dual": True, "config": dict(c), "lp": lp_to_json(lp),
+                  "file": unhx(hb.get("FILE", ""))[:4000]}
         ck.evaluated(("dual", replay["case"]))
         if hb.get("WRITE", "").startswith("CRASH"):
             ck.violation("dual-writer-crash:%s" % c["fmt"], "writeDualFileReal(\"x.%s\") crashes: %s" % (c["fmt"], hb.get("WRITE")), replay)
@@ -726,20 +730,21 @@ def check_duals(ck, exe, tmp, cases):
         ck.count("dual:primal-" + ps)
         if ps == "OPTIMAL":
             p, d = float(frac_of(pv)), float(frac_of(dv)) if ds_ == "OPTIMAL" else None
+            if d is not None and c["fmt"] == "mps" and lp["sense"] == "min":
+                d = -d          # the dual of a minimisation problem is a maximisation problem, which MPS stores negated
             if ds_ != "OPTIMAL" or abs(p - d) > 1e-6 * (1 + abs(p)):
                 ck.violation("dual-value:%s" % c["fmt"], "primal optimum %r but the LP written by writeDualFileReal has status %s value %r" % (p, ds_, d),
                              dict(replay, primal=hb["P"], dual=hb["D"]))
-        elif ps == "UNBOUNDED" and ds_ not in ("INFEASIBLE", "INForUNBD"):
-            ck.violation("dual-status:%s" % c["fmt"], "primal unbounded but the dual LP is %s" % ds_, dict(replay, primal=hb["P"], dual=hb["D"]))
-        elif ps == "INFEASIBLE" and ds_ not in ("UNBOUNDED", "INFEASIBLE", "INForUNBD"):
-            ck.violation("dual-status:%s" % c["fmt"], "primal infeasible but the dual LP is %s" % ds_, dict(replay, primal=hb["P"], dual=hb["D"]))
+        elif ps in ("UNBOUNDED", "INFEASIBLE") and ds_ == "OPTIMAL":
+            ck.violation("dual-status:%s" % c["fmt"], "primal %s but the dual LP has an optimum" % ps.lower(), dict(replay, primal=hb["P"], dual=hb["D"]))
 
 
 def rnd_bounded_lp(rng):
-    """a small LP that is usually feasible and bounded (for the dual writer)"""
+    """a small LP that is feasible by construction (rows are placed around a point inside the bounds) and usually
+    bounded (for the dual writer)"""
     n, m = rng.randint(1, 5), rng.randint(1, 5)
     used = set()
-    cols, rows = [], []
+    cols, rows, x0 = [], [], []
     for j in range(n):
         bt = rng.randrange(6)
         a = Fraction(rng.randint(-5, 5))
@@ -755,20 +760,24 @@ def rnd_bounded_lp(rng):
             lo, up = a, a
         else:
             lo, up = Fraction(rng.randint(1, 4)), "inf"
+        base = lo if lo != "-inf" else up - rng.randint(0, 3)
+        x0.append(base if up == "inf" or lo == "-inf" else Fraction(rng.randint(int(lo), int(up))))
         cols.append({"obj": Fraction(rng.randint(-6, 6)), "lo": lo, "up": up, "int": 0, "name": rnd_name(rng, used, False)})
     for i in range(m):
         es = {j: Fraction(rng.randint(-4, 6)) for j in rng.sample(range(n), rng.randint(1, n))}
         es = {j: v for j, v in es.items() if v != 0}
-        rt = rng.randrange(4)
-        b = Fraction(rng.randint(-4, 12))
+        act = sum(v * x0[j] for j, v in es.items())
+        rt = rng.randrange(5)
         if rt == 0:
-            lhs, rhs = "-inf", b + 6
+            lhs, rhs = "-inf", act + rng.randint(0, 6)
         elif rt == 1:
-            lhs, rhs = b - 8, "inf"
+            lhs, rhs = act - rng.randint(0, 8), "inf"
         elif rt == 2:
-            lhs, rhs = b - 6, b + 6
+            lhs, rhs = act - rng.randint(0, 6), act + rng.randint(1, 6)
+        elif rt == 3:
+            lhs, rhs = act, act
         else:
-            lhs, rhs = b, b
+            lhs, rhs = "-inf", "inf"                    # free row
         rows.append({"lhs": lhs, "rhs": rhs, "es": es, "name": rnd_name(rng, used, False)})
     return {"sense": rng.choice(["min", "max"]), "offset": 0.0, "cols": cols, "rows": rows}
 
@@ -784,6 +793,14 @@ def load_corpus():
             elif f.endswith(".json"):
                 rts.append(json.load(open(p)))
     return lits, rts
+
+
+def lp_to_json(lp):
+    def v(x):
+        return x if x in ("inf", "-inf") else "%d/%d" % (x.numerator, x.denominator)
+    return {"sense": lp["sense"], "offset": lp["offset"],
+            "cols": [{"obj": v(c["obj"]), "lo": v(c["lo"]), "up": v(c["up"]), "int": c["int"], "name": c["name"]} for c in lp["cols"]],
+            "rows": [{"lhs": v(r["lhs"]), "rhs": v(r["rhs"]), "name": r["name"], "es": {str(k): v(x) for k, x in r["es"].items()}} for r in lp["rows"]]}
 
 
 def lp_from_json(j):
@@ -823,13 +840,12 @@ def main():
             lits = [rp["literal"]] if "literal" in rp else []
             if lits:
                 check_literals(ck, exe, model, tmp, lits, 0)
-            if "case" in rp and "config" in rp:
-                # re-run the recorded case text verbatim
-                c = dict(rp["config"])
-                hf = os.path.join(tmp, "replay.cases")
-                open(hf, "w").write(rp["case"])
-                rc, out, err = vlib.sh([exe, "rt", hf, tmp], timeout=600)
-                print(out)
+            if "lp" in rp and "config" in rp:
+                one = [(dict(rp["config"]), lp_from_json(rp["lp"]))]
+                if rp.get("dual"):
+                    check_duals(ck, exe, tmp, one)
+                else:
+                    check_roundtrips(ck, exe, model, tmp, one)
             ck.finish()
         # ---- (i) literals
         maxlen = 7 if quick else 9
